@@ -73,6 +73,22 @@ structure State where
 
 abbrev Env := List (String × Value)
 
+/-- Variants of the real code the model can follow.  `Cfg.fixed` (the default) is
+    /repo's current tree; `Cfg.preFix` is the tree before the `fix:` commits
+    7a34851 / 9fd408d / e8d28b8 and is only used to state what was wrong. -/
+structure Cfg where
+  /-- 7a34851: `allowing overdraft up to X` adds `[asset 0]` to X (OP_MONETARY_ADD), so
+      an X in another asset fails with "cannot add different assets" -/
+  overdraftAssetCheck : Bool := true
+  /-- before 9fd408d: `UnresolvedResourceBalances` keyed by address only, so only the last
+      `balance()` variable of an account was resolved (the others kept a nil amount) -/
+  balanceVarsPerAddress : Bool := false
+  /-- before e8d28b8: a number whose JSON text is `null` decoded to a nil pointer (panic) -/
+  nullNumberIsNil : Bool := false
+
+def Cfg.fixed : Cfg := {}
+def Cfg.preFix : Cfg := { overdraftAssetCheck := false, balanceVarsPerAddress := true, nullNumberIsNil := true }
+
 /-- Go's `MonetaryInt.Add/Sub` treat a nil operand as zero (monetary.go). -/
 def nilAsZero : Option Int → Int
   | some v => v
@@ -283,10 +299,18 @@ def takeFromSource (env : Env) (fb : Option Expr) (f : Funding) (mon : String ×
         | none => .error (.run "exec" "insufficient")
         | some (res, rem) => .ok (⟨f.asset, res⟩, repay b f.asset rem)
 
+/-- The code emitted after the overdraft expression (commit 7a34851):
+    `pushAsset; 0; OP_MONETARY_NEW; OP_MONETARY_ADD`. -/
+def checkOverdraft (cfg : Cfg) (asset : String) (od : String × Option Int) : Except Err (String × Option Int) :=
+  if cfg.overdraftAssetCheck then
+    if od.1 ≠ asset then .error (.run "exec" "add-asset")
+    else .ok (od.1, some (nilAsZero od.2 + nilAsZero (some 0)))
+  else .ok od
+
 mutual
   /-- `VisitSource`: leaves the funding available from the source. `asset` is the
       value `pushAsset` pushes. -/
-  def evalSource (env : Env) (asset : String) : Source → Balances → Except Err (Funding × Balances)
+  def evalSource (cfg : Cfg) (env : Env) (asset : String) : Source → Balances → Except Err (Funding × Balances)
     | .account e od, b =>
       match evalAccount env e with
       | .error err => .error err
@@ -303,34 +327,37 @@ mutual
         | .upTo x =>
           match evalMonetary env x with
           | .error err => .error err
-          | .ok (oa, ov) =>
-            match withdrawAll b acc oa ov with
+          | .ok odv =>
+            match checkOverdraft cfg asset odv with
             | .error err => .error err
-            | .ok (p, b1) => .ok (⟨oa, [p]⟩, b1)
+            | .ok (oa, ov) =>
+              match withdrawAll b acc oa ov with
+              | .error err => .error err
+              | .ok (p, b1) => .ok (⟨oa, [p]⟩, b1)
         | .unbounded =>
           let w := withdrawAlways b acc asset 0
           .ok (⟨asset, [w.1]⟩, w.2)
     | .maxed m s, b =>
-      match evalSource env asset s b with
+      match evalSource cfg env asset s b with
       | .error err => .error err
       | .ok (f, b1) =>
         match evalMonetary env m with
         | .error err => .error err
         | .ok mon => takeMaxStep env s.fallback f mon b1
     | .inorder ss, b =>
-      match evalSources env asset ss b with
+      match evalSources cfg env asset ss b with
       | .error err => .error err
       | .ok (fs, b1) =>
         match assemble fs with
         | .error err => .error err
         | .ok f => .ok (f, b1)
-  def evalSources (env : Env) (asset : String) : SourceList → Balances → Except Err (List Funding × Balances)
+  def evalSources (cfg : Cfg) (env : Env) (asset : String) : SourceList → Balances → Except Err (List Funding × Balances)
     | .nil, b => .ok ([], b)
     | .cons s ss, b =>
-      match evalSource env asset s b with
+      match evalSource cfg env asset s b with
       | .error err => .error err
       | .ok (f, b1) =>
-        match evalSources env asset ss b1 with
+        match evalSources cfg env asset ss b1 with
         | .error err => .error err
         | .ok (fs, b2) => .ok (f :: fs, b2)
 end
@@ -370,18 +397,18 @@ def makeAllotment (env : Env) (ps : List PortionE) : Except Err (List Rat) :=
       else .error (.run "exec" "allot-two-remaining")
 
 /-- The per-source loop of a source allotment. -/
-def evalAllotSrc (env : Env) (asset monAsset : String) :
+def evalAllotSrc (cfg : Cfg) (env : Env) (asset monAsset : String) :
     AllotSrcList → List Int → Balances → Except Err (List Funding × Balances)
   | .nil, _, b => .ok ([], b)
   | .cons _ _ _, [], _ => .error (.fault "allotment length")
   | .cons _ s rest, p :: ps, b =>
-    match evalSource env asset s b with
+    match evalSource cfg env asset s b with
     | .error err => .error err
     | .ok (f, b1) =>
       match takeFromSource env s.fallback f (monAsset, some p) b1 with
       | .error err => .error err
       | .ok (r, b2) =>
-        match evalAllotSrc env asset monAsset rest ps b2 with
+        match evalAllotSrc cfg env asset monAsset rest ps b2 with
         | .error err => .error err
         | .ok (rs, b3) => .ok (r :: rs, b3)
 
@@ -465,7 +492,7 @@ def finishSend (env : Env) (dst : Dest) (f : Funding) (st : State) : Except Err 
   | .error err => .error err
   | .ok (rem, st1) => .ok { st1 with bal := repay st1.bal f.asset rem }
 
-def evalStmt (env : Env) : Stmt → State → Except Err State
+def evalStmt (cfg : Cfg) (env : Env) : Stmt → State → Except Err State
   | .print e, st =>
     match evalExpr env e with
     | .error err => .error err
@@ -515,7 +542,7 @@ def evalStmt (env : Env) : Stmt → State → Except Err State
     match leftmostAsset env mon with
     | .error err => .error err
     | .ok asset =>
-      match evalSource env asset s st.bal with
+      match evalSource cfg env asset s st.bal with
       | .error err => .error err
       | .ok (f, b1) =>
         match evalMonetary env mon with
@@ -537,7 +564,7 @@ def evalStmt (env : Env) : Stmt → State → Except Err State
           match leftmostAsset env mon with
           | .error err => .error err
           | .ok asset =>
-            match evalAllotSrc env asset m.1 items (allocate a amt) st.bal with
+            match evalAllotSrc cfg env asset m.1 items (allocate a amt) st.bal with
             | .error err => .error err
             | .ok (fs, b1) =>
               match assemble fs with
@@ -547,16 +574,16 @@ def evalStmt (env : Env) : Stmt → State → Except Err State
     match evalAssetE env assetE with
     | .error err => .error err
     | .ok asset =>
-      match evalSource env asset s st.bal with
+      match evalSource cfg env asset s st.bal with
       | .error err => .error err
       | .ok (f, b1) => finishSend env dst f { st with bal := b1 }
   | .sendAll _ (.allot _) _, _ => .error (.fault "send all from allotment")
 
-def runStmts (env : Env) : List Stmt → State → Except Err State
+def runStmts (cfg : Cfg) (env : Env) : List Stmt → State → Except Err State
   | [], st => .ok st
   | s :: ss, st =>
-    match evalStmt env s st with
+    match evalStmt cfg env s st with
     | .error err => .error err
-    | .ok st1 => runStmts env ss st1
+    | .ok st1 => runStmts cfg env ss st1
 
 end Ledger.Machine
